@@ -163,6 +163,39 @@ def two_kernel_classes_case(col):
     col.add(None if bad is None else {"sig": "native::errors::kernel_class_of_the_entry", "what": bad, "input": {"kernels": [["zeta", "RecordingKernel"], ["alpha", "OtherBookKernel"]]}})
 
 
+def shared_identifier_case(col):
+    """a kernel REUSED from an earlier build keeps the identifier it was given there ('kernel_01'); put first in a second builder next to a fresh kernel
+    (which is auto-named 'kernel_01' as well) the two would share one record. Either the configuration is rejected (RuntimeError) or BOTH kernels' error
+    codes are reported - silently losing one kernel's codes is the failure"""
+    import liesel.goose as gs
+    model = gs.DictInterface(lambda s_: 0.0)
+    sched = [(0, 1, 1), (3, 6, 1), (4, 10, 1)]
+
+    def builder(kernels):
+        b = gs.EngineBuilder(seed=3, num_chains=2)
+        b.set_epochs([mk_cfg(*c) for c in sched])
+        b.set_model(model)
+        b.set_initial_values({"p0": jnp.zeros(2), "p1": jnp.zeros(2)})
+        for k_ in kernels:
+            b.add_kernel(k_)
+        b.show_progress = False
+        return b
+
+    first, reused = RecordingKernel(["p0"]), RecordingKernel(["p1"], codes=[0, 1, 0, 2, 1])
+    builder([first, reused]).build()  # names them kernel_00, kernel_01
+    fresh = OtherBookKernel(["p0"], codes=[0, 0, 2, 0, 1])
+    try:
+        eng = builder([reused, fresh]).build()
+    except RuntimeError:
+        col.add(None)
+        return
+    eng.sample_all_epochs()
+    log = eng.get_results().get_error_log().unwrap()
+    ok = len(log) == 2
+    col.add(None if ok else {"sig": "native::errors::shared_identifier", "what": f"two kernels ran with identifiers {[reused.identifier, fresh.identifier]}; the error log knows {sorted(log)} only - one kernel's error codes are lost",
+                             "input": {"kernels": "kernel reused from an earlier build (kept 'kernel_01') placed first + a fresh kernel"}})
+
+
 def roundtrips(col, seed):
     from liesel.experimental.arviz import to_arviz_inference_data
 
@@ -222,6 +255,10 @@ def bounded(tier, seed):
     except Exception as e:
         col.add({"sig": f"native::errors::exception::{type(e).__name__}", "what": f"{type(e).__name__}: {str(e)[:200]}", "input": {"scenario": "two kernel classes"}})
     try:
+        shared_identifier_case(col)
+    except Exception as e:
+        col.add({"sig": f"native::errors::exception::{type(e).__name__}", "what": f"{type(e).__name__}: {str(e)[:200]}", "input": {"scenario": "kernel reused from an earlier build"}})
+    try:
         many_chunks_case(col)
     except Exception as e:
         col.add({"sig": f"native::errors::exception::{type(e).__name__}", "what": f"{type(e).__name__}: {str(e)[:200]}", "input": {"scenario": "many chunks"}})
@@ -234,7 +271,7 @@ def bounded(tier, seed):
         "evaluations": col.evals, "distinct_nontrivial": len(pats) + 4,
         "rule": ("BOUNDED: all 81 single-chain and " + ("500 seeded + 4 fixed" if tier == "quick" else "all 6561") + " two-chain error-code patterns over codes {0,1,2} for 2 burn-in + 2 posterior "
                  "transitions, pushed through the real EpochChainManager / SamplingResults.get_error_log / _make_error_summary / Summary._error_df(per_chain=True) and compared with direct "
-                 "counting; an epoch stored in 130 chunks of one transition; two kernels of different classes whose identifiers sort differently from the order of adding (class and messages per entry); engine runs with thinned epochs with and without minimize_transition_infos, codes {0,1,2} and bit-flag codes {1,256,257} (error log / summary counts and messages per phase); one real engine run (scripted error codes, random-walk kernels, thinning) for the ArviZ (incl. warmup) and pickle round trips, the engine error log and the "
+                 "counting; an epoch stored in 130 chunks of one transition; a kernel reused from an earlier build next to a fresh one (shared auto-generated identifier: rejected, or both reported); two kernels of different classes whose identifiers sort differently from the order of adding (class and messages per entry); engine runs with thinned epochs with and without minimize_transition_infos, codes {0,1,2} and bit-flag codes {1,256,257} (error log / summary counts and messages per phase); one real engine run (scripted error codes, random-walk kernels, thinning) for the ArviZ (incl. warmup) and pickle round trips, the engine error log and the "
                  f"reported sample counts. seed={seed}"),
         "samples": [{"error_codes": [[1, 0, 2, 0]]}, {"error_codes": [[0, 0, 1, 1], [0, 0, 0, 2]]}],
         "exhaustive": tier != "quick", "violations": col.violations,
